@@ -37,3 +37,20 @@ Proof. vm_compute. repeat split; reflexivity. Qed.
 Example pay_step_counts :
   (BinaryPaySched.binary_pay_steps 3 Ra (payb 3) 2, BinaryPaySched.binary_pay_steps 6 (Rd 6) (payb 5) 3) = (20, 70)%nat.
 Proof. vm_compute. reflexivity. Qed.
+
+(* ---- pex with payload and payloadv census (C02/CensusvSched.v) in the semantics with collectives: scheduler of C01/CollTests.v ---------------- *)
+From ScV Require Import MPI.SemColl C01.CollSched C01.CollTests C02.PayloadModel C02.CensusvSched.
+
+Example pex_pay_random_schedules :
+  forallb (good_run_c 4 (pexp_sys 4 R4 true pay4 4) 1 (expp 4 R4 pay4)) (ranks 4) = true /\
+  forallb (good_run_c 3 (pexp_sys 3 R3 true (payb 5) 5) 1 (expp 3 R3 (payb 5))) (ranks 4) = true.
+Proof. vm_compute. repeat split; reflexivity. Qed.
+
+Definition lenv : Z -> Z -> Z := fun f t => (f + 2 * t) mod 3.
+Definition slicev : Z -> Z -> payload := fun f t => map (fun i => 10 * f + t + Z.of_nat i) (seq 0 (Z.to_nat (2 * lenv f t))).     (* items of 2 bytes *)
+Definition expv P (R : Z -> list Z) : list (option payload) :=
+  map (fun r => let f := transpose P R r in Some (resultv f (out_offsets (map (fun q => lenv q r) f)) (concat (map (fun q => slicev q r) f)))) (ranks P).
+Example censusv_random_schedules :
+  forallb (good_run_c 4 (censusv_sys K_RSB 4 R4 lenv slicev 2 true) (censusv_steps 4 R4 slicev) (expv 4 R4)) (ranks 10) = true /\
+  forallb (good_run_c 3 (censusv_sys K_RMA 3 R3 lenv slicev 2 true) (censusv_steps 3 R3 slicev) (expv 3 R3)) (ranks 10) = true.
+Proof. vm_compute. repeat split; reflexivity. Qed.
